@@ -250,6 +250,7 @@ ADDED = {
     "C19__r7": ' Job tab_session: completer(text, state) driven as readline drives it over three TAB presses on symbolic lines (a, b, b again); every completion offered extends the line as it was at that TAB.',
     "C02__r8": " Full-stack family: a dilating wormhole paired with one created WITHOUT dilation, and a pair that dilates late, under a reordering server - the application's message stream is exactly what the peer sent (no dilate-N plaintext is ever handed over as a message).",
     "C14__r8": ' Every NoTransition is recorded where Automat constructs it, so one swallowed by a Deferred (Terminator under RendezvousConnector.stop()) still counts.',
+    "C14__r8b": " Full-stack configuration fs-disjoint-dilation-versions: the peer offers only a dilation version this side does not know (found a genuine defect, fixed in 855cc22).",
     "C18__r8": ' One configuration uses the Deferred API with nested callbacks (versions and messages asked for from inside the key callback).',
     "C16__r8": " Configuration net-half-open-busy-writer: only the Follower's end of the link in use learns of its loss while the Leader's application keeps writing every 20 s; after 160 s the Leader must have replaced the connection.",
     "C20__r7": ' Well-formed lists contain twin entries (one target as Tor and as direct hint, symbolic types/priorities): an undialable twin must not keep the dialable one from being dialled.',
